@@ -233,7 +233,7 @@ def check_walks(rep, fm):
         it = fm.norm(L.iter) if L.iter is not None else None
         if isinstance(it, Op) and it.op == "call:os.walk":
             n += 1
-            rep.check(any(b == TRUE for b in L.stops), rule, "%s: os.walk loop stops after the top-level directory" % L.func.split(".")[-1],
+            rep.check(pelx.stops_always(L), rule, "%s: os.walk loop stops after the top-level directory" % L.func.split(".")[-1],
                       L.func, L.node, "directory walk descends into subdirectories (no unconditional break after the first entry)", node=L.node)
             # only the files component (index 2) of the walk tuple may be iterated
     for L in fm.I.loops.values():
